@@ -1,6 +1,6 @@
 #!/bin/bash
 # usage: tools/try_mutant.sh <patch.diff> <ID> [<ID>...]   (applies to /repo, runs quick checks, reverts)
-patch="$1"; shift
+patch="$(realpath "$1")"; shift
 cd /repo || exit 2
 if ! git diff --quiet; then echo "/repo dirty"; exit 2; fi
 if ! git apply "$patch" 2>/dev/null && ! git apply --3way "$patch"; then echo "patch does not apply"; git reset -q --hard HEAD; exit 2; fi
